@@ -446,6 +446,39 @@ def rule4(ctx, rep):
             def on_raise(s, node, st):
                 return (st | {'raised'},)
 
+        # the token identifies the EVENT: what is tested against and stored in the list is the event itself, or a key that
+        # includes the task it belongs to (algorithm names are unique only within a task).  Added after seeded change
+        # C20-7: `when.algref.impl.name()` as token - two tasks that boot-schedule an algorithm of the same name shared
+        # one entry and the second boot event never fired.
+        r.instance()
+        ev = f.params()[0]
+
+        def _key_ok(e, depth=0):
+            if isinstance(e, ast.Name) and e.id == ev:
+                return True
+            if isinstance(e, ast.Name) and depth < 3:
+                defs = _local_def(f, e.id)
+                return bool(defs) and all(_key_ok(x, depth + 1) for x in defs)
+            attrs = {x.attr for x in ast.walk(e) if isinstance(x, ast.Attribute)}
+            calls = {call_name(x) for x in ast.walk(e) if isinstance(x, ast.Call)}
+            mentions_event = any(isinstance(x, ast.Name) and x.id == ev for x in ast.walk(e))
+            return mentions_event and ('factory' in attrs or 'task_name' in calls or 'task_module' in calls or (isinstance(e, ast.Attribute) and e.attr == 'algref'))
+
+        keys = []
+        for n in f.own_nodes():
+            if isinstance(n, ast.Compare) and len(n.ops) == 1 and isinstance(n.ops[0], (ast.In, ast.NotIn)) and isinstance(n.comparators[0], (ast.Name, ast.Attribute)) and prog.resolve_in(n.comparators[0], f) == B:
+                keys.append(n.left)
+            if isinstance(n, ast.Call) and isinstance(n.func, ast.Attribute) and n.func.attr in ('append', 'add') and isinstance(n.func.value, (ast.Name, ast.Attribute)) and prog.resolve_in(n.func.value, f) == B and n.args:
+                keys.append(n.args[0])
+        badk = [k for k in keys if not _key_ok(k)]
+        same = len({norm(k) for k in keys}) <= 1
+        r.check(
+            bool(keys) and not badk and same,
+            f'{f.qname}:token-identifies-event',
+            where(f, badk[0] if badk else None),
+            f'token {norm(keys[0]) if keys else ""} tested and stored',
+            f'the boot token is {sorted({norm(k) for k in keys})}: ' + ('the key tested differs from the key stored' if not same else 'it does not identify the event (no task / factory component): events of different tasks whose algorithms share a name are taken for one'),
+        )
         d = D()
         out = d.run(f.node, frozenset())
         r.instance()
@@ -673,6 +706,7 @@ def check(ctx):
 VARIANTS = [
     V('paused re-arm uses a shared wrapper', 'B', 'pl/schedule.py', 'defer', "dawgie.pl.DeferWithLogOnError(\n                defer,\n                'handling error while scheduling periodic event',\n                __name__,\n            ).callback", '_wakeup.callback', 'R-C20-5'),
     V('monthly candidate carries the year from the wrong month', 'B', 'pl/schedule.py', '_delay', 'nm = now.month + 1', 'nm = now.month % 12 + 1', 'R-C20-2'),
+    V('boot token is the algorithm name', 'B', 'pl/schedule.py', '_delay', 'if when in booted:\n            raise _DelayNotKnowableError()', 'if when.algref.impl.name() in booted:\n            raise _DelayNotKnowableError()', 'R-C20-4'),
     V('booted cleared in build', 'B', 'pl/schedule.py', 'build', 'dawgie.pl.schedule.per = []', 'dawgie.pl.schedule.per = []\n    booted.clear()', 'R-C20-4'),
     V('booted rebound in build', 'B', 'pl/schedule.py', 'build', 'dawgie.pl.schedule.per = []', 'dawgie.pl.schedule.per = []\n    dawgie.pl.schedule.booted = []', 'R-C20-4'),
     V('token appended unconditionally', 'B', 'pl/schedule.py', '_delay', 'if when in booted:\n            raise _DelayNotKnowableError()', 'pass', 'R-C20-4'),
